@@ -171,6 +171,13 @@ class Resolver:
                     if isinstance(value, (ast.Tuple, ast.List)) and len(value.elts) == len(t.elts) \
                             and not any(isinstance(x, ast.Starred) for x in value.elts):
                         self._bind(e.id, "assign", stmt, value.elts[k])
+                    elif isinstance(value, ast.Call) and isinstance(value.func, ast.Name) and value.func.id == "zip" and len(value.args) == 1 \
+                            and isinstance(value.args[0], ast.Starred) and not value.keywords:
+                        # a, b = zip(*rows): the k-th target is the k-th field of every row (a projection; tuple vs list is immaterial)
+                        proj = ast.ListComp(
+                            elt=ast.Subscript(value=ast.Name(id="e_", ctx=ast.Load()), slice=ast.Constant(value=k), ctx=ast.Load()),
+                            generators=[ast.comprehension(target=ast.Name(id="e_", ctx=ast.Store()), iter=value.args[0].value, ifs=[], is_async=0)])
+                        self._bind(e.id, "assign", stmt, ast.fix_missing_locations(ast.copy_location(proj, value)))
                     else:
                         self._bind(e.id, "elem", stmt, value, k)
                 elif isinstance(e, ast.Starred):
